@@ -47,6 +47,22 @@ func mustWriteTargets(c *Ctx, p *core.Prog, prop string) []*ssa.Function {
 	switch prop {
 	case "C09", "C10", "C11", "C12":
 		return nil
+	case "C19":
+		for _, it := range c.implTypes(p) {
+			if it.Kind != "xof" {
+				continue
+			}
+			for _, m := range []string{"Read", "Write", "XORKeyStream", "Reseed", "Reset", "Clone"} {
+				if fn := p.Method(it.Named, m); fn != nil && len(fn.Blocks) > 0 && fn.Synthetic == "" {
+					out = append(out, fn)
+				}
+			}
+		}
+		for _, n := range []string{"xof/blake2xb.New", "xof/blake2xs.New", "xof/keccak.New", "(*util/random.randstream).XORKeyStream"} {
+			if fn := p.Fn(n); fn != nil {
+				out = append(out, fn)
+			}
+		}
 	case "C04":
 		for _, it := range c.implTypes(p) {
 			if it.Kind == "xof" {
